@@ -172,6 +172,18 @@ func runC02(r *Report) {
 		for _, ret := range Returns(lc) {
 			// delete(tunnelBridges, id) under bridgeLock
 			okDel := !ReachesWithout(lc, ret, func(in ssa.Instruction) bool {
+				if d, isDefer := in.(*ssa.Defer); isDefer {
+					// a deferred closure that deletes under the lock runs on every exit after this point
+					if g := resolveClosure(d.Call.Value, lc, 0); g != nil && g.Parent() == lc {
+						gls := ComputeLockSets(g, nil)
+						for _, del := range mapDeletes(g, "tunnelBridges") {
+							if gls.Held(del, "bridgeLock") == "W" {
+								return true
+							}
+						}
+					}
+					return false
+				}
 				c, ok := in.(*ssa.Call)
 				if !ok {
 					return false
@@ -253,7 +265,10 @@ func reachesReturnWithoutUnlessNil(f *ssa.Function, ret *ssa.Return, call, fld s
 		if in == ssa.Instruction(ret) {
 			return Hit
 		}
-		if ci, ok := in.(ssa.CallInstruction); ok && CalleeOf(ci).Name == call {
+		if OrDeferred(func(x ssa.Instruction) bool {
+			ci, ok := x.(ssa.CallInstruction)
+			return ok && CalleeOf(ci).Name == call
+		})(in) {
 			return Stop
 		}
 		return Cont
